@@ -103,6 +103,8 @@ def run():
     for i in (0, len(jobs) // 2, len(jobs) - 1):
         chk.sample({"meta": jobs[i]["meta"], "rc": records[i]["rc"], "exc": records[i]["exc"]})
     _cli.model_check(chk)
+    from props import _dispatch
+    _dispatch.check(chk, t, rng("c13-dispatch"))
     chk.rule = ("cases = the full product input type (8) x output format (8 + default) x mode (full, -e, -d) x look (plain, "
                 "--color, --html) x condensed (-j) x (equal | different documents) for %d document sets (one fixed, the "
                 "others random; XML with attributes/text/children, CSV with ragged rows, pickles and plists of nested "
